@@ -18,3 +18,8 @@ TEXT['C12'] = dict(
    technique='Coq proof (decode = RFC grammar parser as an iff, decode∘assemble = id, typed accessors, panic freedom) + differential correspondence run',
    level='Theorems in coq/Properties/C12.v hold for every message and every byte string of any length: decode succeeds exactly when an independent offset-table/grammar reading exists and returns that reading; decode(assemble m) = m on the stated domain; each typed option value comes from the last option of its code and only from a payload of exactly the required length. The model is tied to lib/dhcpmsg by running both on the same inputs each run (round trips, exhaustive short option areas over a structural alphabet, truncations, all hlen values, typed payload lengths).',
    note='Trusted: Coq kernel, extraction, driver, harness, hand-written model of lib/dhcpmsg. Option payloads are values in the model; aliasing of the receive buffer is treated under C09.')
+
+TEXT['C11'] = dict(
+   technique='Coq proof: refinement of the two-key lazy-deletion store to a reference table over all histories, table invariants, search soundness/completeness; differential correspondence on exhaustive small-scope and random API histories under a virtual clock',
+   level='Theorems in coq/Properties/C11.v hold for every history of database operations of any length, every non-decreasing clock, every candidate order, probe outcome/duration and cancellation point: the concrete store (two map keys per binding, lazy deletion, pointer comparison) returns exactly what the reference table returns; the table has at most one live binding per address and per client in every reachable state; an update succeeds iff it extends the own binding or creates one where both are free; expired entries are invisible, permanent ones persist; the search returns the own address, else the eligible suggestion, else an eligible range address, and fails only if none is eligible/disabled/cancelled. Tie to lib/server/ipdb: all 21 952 operation sequences of length 3 over a 28-operation alphabet plus random histories run on the real API inside testing/synctest each quick run.',
+   note='Trusted: Coq kernel, extraction, driver, harness, hand-written model of ipdb/clients; the mutex makes each API call atomic (gofacts fact); rand.Perm order is validated not predicted.')
